@@ -253,6 +253,9 @@ def _case(draw, pid, tier):
         labelled = draw(st.booleans())
         algos = (["ext_spfs", "base_spfs", "superdtl", "base_uspfs"] if labelled
                  else ["thl", "exh"])
+        polytomy = labelled and draw(st.integers(0, 7)) == 0
+        if polytomy:
+            algos = ["ext_spfs", "superdtl"]
     elif pid == "C04":
         labelled = draw(st.integers(0, 3)) != 0
         algos = list(ALGOS) if labelled else ["lca", "thl", "exh"]
@@ -281,12 +284,12 @@ def _case(draw, pid, tier):
         max_obj = 5 if not labelled else (5 if thorough else 4)
         max_sp = 5 if not labelled else 4
         max_fam = 4 if thorough else 3
-        if pid == "C03" or (pid == "C05" and labelled and draw(st.booleans())):
+        if pid == "C03" or (pid == "C05" and labelled and not polytomy and draw(st.booleans())):
             # the unordered solvers and their oracle are cheap: go deeper already in quick
             max_obj, max_fam = 5, 4
             if pid == "C05":
                 algos = ["superdtl", "base_uspfs"]
-        elif pid in ("C02", "C05") and labelled and draw(st.integers(0, 3)) == 0:
+        elif pid in ("C02", "C05") and labelled and not polytomy and draw(st.integers(0, 3)) == 0:
             # swarm mode "wide syntenies": few nodes, five or six families - segment
             # distances over parent syntenies with holes wider than one position
             max_obj, max_sp, max_fam = 3, 2, 6
@@ -675,7 +678,12 @@ def check_outputs(run, slot, algo, policy, outs, where, regime):
                 f"= {recount} for {canon.output_key(out, labelled)} on {spec}")
         run.check(recount < float("inf"), ("C04",), "C04.infinite-cost",
                   f"{where}: {algo} returned a solution of infinite cost")
-        keys.append(canon.output_key(out, labelled))
+        key = canon.output_key(out, labelled)
+        if not slot.binary:
+            # solutions of a multifurcating input live on different refinements: the trees they
+            # refer to are part of what tells them apart
+            key = (ref.nested_clades(on), ref.nested_clades(sn), key)
+        keys.append(key)
         costs_seen.append(recount)
     if not outs:
         cost = None
@@ -713,18 +721,29 @@ def check_outputs(run, slot, algo, policy, outs, where, regime):
         # outside the coherent region only the listed F-COHERENCE witnesses are replayed
         return cost, keyset
     if not slot.binary:
-        if not run.wants("C08", prop):
+        if not run.wants("C08", "C05", prop):
             return cost, keyset
         best = float("inf")
         n_ref = 0
+        optimal = {}  # refinement pair -> its optimal set (canonical labellings if unordered)
         for on in ref.refinements(spec["object"]):
             for sn in ref.refinements(spec["species"]):
-                res = slot.ref_input(on, sn).opt(mode, budget=20000)
+                rin = slot.ref_input(on, sn)
+                res = rin.opt(mode, budget=20000)
                 n_ref += 1
                 if res is None:
                     run.probe("oracle_overcap")
                     return cost, keyset
                 best = min(best, res["min"])
+                if run.wants("C05") and res["min"] < float("inf"):
+                    sols = res["sols"]
+                    if mode == "unordered":
+                        cres = rin.opt(mode, canonical=True, budget=20000)
+                        if cres is None:
+                            run.probe("oracle_overcap")
+                            return cost, keyset
+                        sols = cres["sols"] if cres["min"] == res["min"] else set()
+                    optimal[ref.nested_clades(on), ref.nested_clades(sn)] = (res["min"], sols)
         run.probe("polytomy_oracle")
         if best == float("inf"):
             run.check(not outs, ("C08", prop), "C08.should-be-empty",
@@ -733,6 +752,23 @@ def check_outputs(run, slot, algo, policy, outs, where, regime):
             run.check(outs and cost == best, ("C08", prop), "C08.not-optimum-over-refinements",
                       lambda: f"{where}: {algo} on multifurcating input {spec}: returned cost "
                               f"{cost}, optimum over the {n_ref} refinement pairs is {best}")
+            if run.wants("C05") and outs:
+                target = frozenset((oc, sc, k) for (oc, sc), (m, sols) in optimal.items()
+                                   if m == best for k in sols)
+                run.probe("polytomy_all_set")
+                if policy == "ALL":
+                    run.check(keyset == target, ("C05",), "C05.all-set-differs",
+                              lambda: f"{where}: {algo}(ALL) on multifurcating input returned "
+                                      f"{len(keyset)} solutions, the optimal set over the "
+                                      f"{n_ref} refinement pairs has {len(target)}; missing "
+                                      f"{sorted(target - keyset)[:1]}; extra "
+                                      f"{sorted(keyset - target)[:1]}; input {spec}")
+                else:
+                    run.check(len(keyset) == 1 and keyset <= target, ("C05",),
+                              "C05.any-not-in-all",
+                              lambda: f"{where}: {algo}(ANY) on multifurcating input returned "
+                                      f"{sorted(keyset)[:1]}, not a member of the optimal set "
+                                      f"({len(target)}); input {spec}")
         return cost, keyset
     base = algo.startswith("base")
     rin = slot.ref_input()
@@ -1626,7 +1662,7 @@ def describe(pid):
             "C04": ["order_permuted", "polytomy_input", "sloss_zero", "transfer_in_optimum",
                     "recost_in_place", "resyn_in_place"],
             "C05": ["order_permuted", "oracle_compared", "ties_in_all_set", "rerun_other_order",
-                    "any_pick_differs_across_orders"],
+                    "any_pick_differs_across_orders", "polytomy_all_set"],
             "C08": ["order_permuted", "polytomy_input", "polytomy_oracle", "two_generators_alive",
                     "cancelled_midway", "F1_cancel", "F1_throw"],
             "C09": ["order_permuted", "meta_again", "meta_reorder", "meta_rename",
